@@ -64,11 +64,11 @@ GROUPS = {
         mc_thorough=C(NSys=2, NEnt=2, NVal=2, OpNames={"ins", "mut", "set", "smut", "sset", "rm", "desp", "trig", "noreact"}, MaxOps=2, Budget=4, MaxSteps=3,
                       StepKinds={"ops", "poll", "clear"}),
         gen=C(NSys=3, NEnt=2, NVal=2, OpNames={"ins", "mut", "set", "noreact", "smut", "sset", "sno", "rm", "xrm", "desp", "xdesp", "trig", "reg", "revoke", "run",
-                                               "resset", "resmut", "resno", "res", "sysevsig"},
+                                               "resset", "resmut", "resno", "res", "xres", "sysevsig"},
               Modes=ALLMODES, MaxOps=3, Budget=9, MaxSteps=4, StepKinds={"ops", "poll", "clear", "gc", "frame", "direct"}, Features={"coarse"}),
         rnd=dict(cfg=dict(kinds=["plain", "plain", "plain"], nonce=1, nent=2),
                  alphabet=["ins", "mut", "set", "noreact", "smut", "sset", "sno", "rm", "xrm", "desp", "xdesp", "trig", "reg", "revoke", "run", "resset", "resmut", "resno",
-                           "res", "once", "probe", "sysevsig"],
+                           "res", "xres", "once", "probe", "sysevsig"],
                  trigs=["ins", "mut", "rem", "eins", "emut", "erem", "desp", "res"], max_ops=3, budget=12, steps=4, ntypes=2, nvals=2, p_gcpoll=30, p_frame=30, p_direct=15,
                  init=[["ins", 1, 1, 1], ["ins", 2, 1, 1], ["reg", "persistent", 1, [["mut", 1], ["rem", 1], ["eins", 2, 1], ["res", 1]], 0],
                        ["reg", "cleanup", 2, [["ins", 1], ["erem", 1, 1], ["desp", 2]], 0]]),
@@ -207,7 +207,7 @@ ENUMS["treeev"] = dict(subst=dict(Bundles="B_One", InitOps="Init_Listen"), budge
 ENUMS["treecomp"] = dict(subst=dict(Bundles="B_One", InitOps="Init_Comp"), budget=dict(quick=3, thorough=4),
                          consts=C(NSys=2, NEnt=2, NVal=1, OpNames={"mut", "rm", "desp", "ins"}, MaxOps=2, BodyOps=2, Budget=3, MaxSteps=3, FinalStep="clear"))
 PROP_ENUMS = {
-    "C01": ["tabcomp", "tabev", "treeev"], "C06": ["tabcomp", "tabev", "tabrem"], "C07": ["tabev", "tabmix", "tabcomp"], "C15": ["tabev", "tabcomp", "tabdesp"],
+    "C01": ["tabcomp", "tabev", "treeev"], "C06": ["tabcomp", "tabev", "tabrem", "tabworld", "tabdesp"], "C07": ["tabev", "tabmix", "tabcomp"], "C15": ["tabev", "tabcomp", "tabdesp"],
     "C11": ["tabdesp", "treeev"], "C12": ["treesys"], "C02": ["treesys"], "C09": ["treesys"], "C03": ["treeev"], "C04": ["treeev"], "C05": ["treeev"],
     "C16": ["tabworld"], "C18": ["tabmix", "treecomp"], "C08": ["tabmix", "tabrem", "tabdesp", "treecomp"], "C14": ["treecomp"], "C13": ["treeev"],
 }
@@ -219,7 +219,7 @@ PROP_GROUPS = {
     "C03": ["ev", "mix", "burst", "erburst"],
     "C04": ["ev", "run"],
     "C05": ["ev", "reg", "mix"],
-    "C06": ["reg", "comp"],
+    "C06": ["reg", "comp", "world"],
     "C07": ["reg", "comp", "hier", "app"],
     "C08": ["comp", "mix", "hier"],
     "C09": ["run", "ev", "burst", "mix"],
